@@ -154,7 +154,10 @@ def sample_elements(rng, N, lens, k):
     if N <= k:
         return None
     ln = lens or [1] * N
-    pick = {0, N - 1, max(range(N), key=lambda n: ln[n])}
+    pick = {max(range(N), key=lambda n: ln[n])}
+    for n in (N - 1, 0):
+        if len(pick) < k:
+            pick.add(n)
     while len(pick) < k:
         pick.add(rng.randrange(N))
     return sorted(pick)
@@ -162,14 +165,18 @@ def sample_elements(rng, N, lens, k):
 
 def full_lens(chk, rng, N, T, whole):
     """lengths of a batch; `whole`: one element (at least) keeps all its frames or all but one - a case that is
-    meant to reach a size must not be cut short by its own lengths"""
+    meant to reach a size must not be cut short by its own lengths; large batches: ragged lengths (the freezing of
+    finished elements is what a batch is about), rarely None"""
     lens = chk.gen_lens(rng, N, T) if N > 1 or rng.random() < 0.5 else None
+    if N >= 16 and lens is None and rng.random() < 0.8:
+        lens = [rng.randint(0, T) for _ in range(N)]
+        lens[rng.randrange(N)] = T
     if lens is not None and whole and max(lens) < T - 1:
         lens[rng.randrange(N)] = rng.choice([T, T, T - 1])
     return lens
 
 
-def module_tol(chk, rng, tier, V, width, T, N, dtype, lm=False, style="gauss", keep_elems=3, vary=True):
+def module_tol(chk, rng, tier, V, width, T, N, dtype, lm=False, style="gauss", keep_elems=3, vary=True, model=True):
     logits = [[None] * N for _ in range(T)]
     for n in range(N):
         if style == "mixed":    # wide beams: a merge-rich draw (generator aid, see `merges`)
@@ -192,7 +199,7 @@ def module_tol(chk, rng, tier, V, width, T, N, dtype, lm=False, style="gauss", k
     case = {"kind": "module", "stream": "tol", "V": V, "width": width, "dtype": dtype, "logits": logits, "N": N,
             "lens": lens, "lm": lm_spec, "gen": "size"}
     judge = {}
-    if not model_ok(width, V, T, "tol", tier):
+    if not model or not model_ok(width, V, T, "tol", tier):
         judge["model"] = False
     if T > 32:
         judge["dp"] = False
@@ -274,22 +281,31 @@ def advance_exact(chk, rng, tier, V, width, T, long_run=False):
 
 
 def roster(chk, rng, tier):
-    """The size-class cases of one run.  quick: about ten cases (one per class, the entry point of each class
-    drawn anew every run; ALWAYS one module case beyond 1e5 and one case of another entry point beyond 65536);
+    """The size-class cases of one run.
+
+    quick — eight cases.  ALWAYS: (1) the module beyond K'*K'*V = 1e5; (2) the module with a fused LM beyond 65536;
+    (3) another entry point (exact module / step function / caller-given state) beyond 65536; (4) a large
+    vocabulary (64..257) with K'*K'*V in (1e4, 65536] on one of the four entry points; (5) an exact run of 128 / 200
+    frames with the array model; (6) large input / output tensors (T*N*(V+1) beyond 1e5, T*N*K' beyond 1e4);
+    (7) a large batch x a beam of width 32 / 100 with ragged lengths (N*K' beyond 1e3, N*K'*(V+1) beyond 1e4 / 1e5).
+    ROTATING (one per run): the very largest (specification only) / a tolerance run of 33..64 frames with the
+    array model / of 100..200 frames without / a directly driven exact run of 100..200 frames / a fused run of
+    24..40 frames / a large batch with everything else small.
     thorough / search: every class for every entry point, several times."""
     quick = tier == "quick"
     reps = 1 if quick else 3 if tier == "thorough" else 6
     wmax = 130 if quick else 200
 
     def wide(lo, hi, kind, **kw):
-        w, V = rng.choice(pairs(lo, hi, kw.pop("wmax", wmax)))
+        # (fused: V <= 33 - the per-prefix tables of exact LM scores are K' x V decimals per frame, three times)
+        w, V = rng.choice([x for x in pairs(lo, hi, kw.pop("wmax", wmax)) if kind != "fused" or x[1] <= 33])
         T = max(3, fill_frames(V, w) + rng.choice([2, 2, 3]))
         if kind == "tol":
             return module_tol(chk, rng, tier, V, w, T, rng.choice([1, 1, 2]), rng.choice(["f64", "f64", "f32"]),
                               style="mixed", **kw)
         if kind == "fused":
-            return module_tol(chk, rng, tier, V, w, min(T, 4), rng.choice([1, 1, 2]), rng.choice(["f64", "f32"]), lm=True,
-                              style="mixed")
+            return module_tol(chk, rng, tier, V, w, min(T, 4), 1 if quick else rng.choice([1, 1, 2]),
+                              rng.choice(["f64", "f32"]), lm=True, style="mixed")
         if kind == "exact":
             return module_exact(chk, rng, tier, V, w, T, rng.choice([1, 2]))
         if kind == "advance":
@@ -298,86 +314,103 @@ def roster(chk, rng, tier):
             return next(chk.gen_state_advance(rng, 1, size={"V": V, "Kp": w, "S": rng.choice([2, 3]), "width": w}))
         raise ValueError(kind)
 
-    for _ in range(reps):
-        others = ["fused", "exact", "advance", "state"]
-        rng.shuffle(others)
-        # --- wide beams: the (K', K', V) intermediate beyond 1e5 / beyond 65536 / beyond 1e4
-        yield wide(100000, 330000, "tol")
-        yield wide(65536, 330000, others[0])
-        yield wide(65536, 100000, others[1] if not quick else rng.choice(["tol", others[1]]))
-        yield wide(10000, 65536, others[2])
-        if not quick:
-            yield wide(1000, 10000, others[3])
-            yield wide(100000, 330000, others[3])
-            yield wide(65536, 330000, "fused")
-            yield wide(65536, 330000, "advance")
-        # --- the very largest: specification only (K' = 200, K'*K'*V up to 3e6)
-        big = [(w, V) for w in WIDTHS for V in VOCABS if 330000 < w * w * V <= 3000000 and w * V <= 13000]
-        if not quick or rng.random() < 0.5:
-            w, V = rng.choice(big)
-            T = max(3, fill_frames(V, w) + 1)
-            yield rng.choice([
-                lambda: module_tol(chk, rng, "quick", V, w, T, 1, "f64", vary=False, style="mixed"),
-                lambda: advance_exact(chk, rng, "quick", V, w, T)])()
-        # --- large vocabularies with a narrow beam
+    def vocab(kind, narrow):
         V = rng.choice([64, 65, 128, 257])
-        kind = rng.choice(["tol", "fused", "advance", "exact"])
-        w = rng.choice([1, 2, 3, 5, 8])
+        if narrow:
+            w = rng.choice([1, 2, 3, 5, 8])
+        else:   # K'*K'*V in (1e4, 65536]
+            w = rng.choice([w for w in (8, 12, 16, 20, 30) if 10000 < w * w * V <= 65536])
         T = rng.choice([3, 4, 5])
         if kind in ("tol", "fused"):
-            yield module_tol(chk, rng, tier, V, w, T, rng.choice([1, 2]), rng.choice(["f64", "f32"]), lm=kind == "fused")
-        elif kind == "advance":
-            yield advance_exact(chk, rng, tier, V, w, T)
-        else:
-            yield module_exact(chk, rng, tier, V, w, T, rng.choice([1, 2]))
-        if not quick:
-            for kind in ("tol", "fused", "advance", "exact"):
-                V, w, T = rng.choice([64, 65, 128, 257]), rng.choice([1, 2, 3, 5, 8]), rng.choice([3, 4, 5])
-                if kind in ("tol", "fused"):
-                    yield module_tol(chk, rng, tier, V, w, T, rng.choice([1, 2]), "f64", lm=kind == "fused")
-                elif kind == "advance":
-                    yield advance_exact(chk, rng, tier, V, w, T)
-                else:
-                    yield module_exact(chk, rng, tier, V, w, T, 1)
-        # --- long inputs, small vocabulary, narrow beam
+            return module_tol(chk, rng, tier, V, w, T, rng.choice([1, 2]), rng.choice(["f64", "f32"]), lm=kind == "fused")
+        if kind == "advance":
+            return advance_exact(chk, rng, tier, V, w, T)
+        return module_exact(chk, rng, tier, V, w, T, rng.choice([1, 2]))
+
+    def huge():
+        # the very largest: specification only (K' = 200, K'*K'*V up to 3e6)
+        big = [(w, V) for w in WIDTHS for V in VOCABS if 330000 < w * w * V <= 3000000 and w * V <= 13000]
+        w, V = rng.choice(big)
+        T = max(3, fill_frames(V, w) + 1)
+        if rng.random() < 0.5:
+            return module_tol(chk, rng, "quick", V, w, T, 1, "f64", vary=False, style="mixed")
+        return advance_exact(chk, rng, "quick", V, w, T)
+
+    longs = [t for t in LONG_T if t <= (200 if quick else 300)]
+
+    def long_run(kind):
         V, w = rng.choice([1, 2, 2, 3]), rng.choice([1, 2, 3, 4, 6])
-        longs = [t for t in LONG_T if t <= (200 if quick else 300)]
-        yield module_exact(chk, rng, tier, V, w, rng.choice(LONG_T[2:]), 1 if quick else rng.choice([1, 2]))
-        kind = rng.choice(["tol64", "tol", "advance", "fused"])
-        V, w = rng.choice([1, 2, 2, 3]), rng.choice([1, 2, 3, 4, 6])
-        for kind in ([kind] if quick else ["tol64", "tol", "advance", "fused"]):
-            if kind == "tol64":     # with the array model: f32 / f64, up to 64 frames
-                yield module_tol(chk, rng, tier, V, w, rng.choice([33, 48, 64]), rng.choice([1, 2]),
-                                 rng.choice(["f32", "f64"]), style="peaky")
-            elif kind == "tol":     # specification only, hundreds of frames (float64: 3^-300 is a normal number)
-                yield module_tol(chk, rng, tier, V, w, rng.choice([t for t in longs if t > 64]), rng.choice([1, 2]), "f64",
-                                 style=rng.choice(["peaky", "gauss"]))
-            elif kind == "advance":
-                yield advance_exact(chk, rng, tier, V, w, rng.choice(longs), long_run=True)
-            else:
-                yield module_tol(chk, rng, tier, min(V, 2), min(w, 3), rng.choice([24, 32, 40]), 1, "f64", lm=True,
-                                 style="peaky")
-        # --- large input / output tensors with everything else narrow: T*N*(V+1) (logits) and T*N*K' (tokens) beyond
-        # 1e4 / 1e5; a sample of three elements goes through Lean
-        vols = [(T, N, V) for T in (24, 40, 64, 100, 200) for N in (16, 33, 64) for V in (3, 8, 33, 64)
-                if 10000 < T * N * (V + 1) <= (150000 if quick else 450000)]
-        for _ in range(1 if quick else 2):
-            T, N, V = rng.choice(vols if rng.random() < 0.5 else [x for x in vols if x[0] * x[1] * (x[2] + 1) > 100000])
-            yield module_tol(chk, rng, tier, V, rng.choice([1, 2, 4]), T, N, "f64" if T > 64 else rng.choice(["f32", "f64"]),
-                             style="peaky", keep_elems=3)
-        # --- large batches
+        if kind == "exact":
+            return module_exact(chk, rng, tier, V, min(w, 4) if quick else w,
+                                rng.choice(LONG_T[2:4] if quick else LONG_T[2:]), 1 if quick else rng.choice([1, 2]))
+        if kind == "tol64":     # with the array model: f32 / f64, up to 64 frames
+            return module_tol(chk, rng, tier, V, w, rng.choice([33, 48, 64]), rng.choice([1, 2]),
+                              rng.choice(["f32", "f64"]), style="peaky")
+        if kind == "tol":       # specification only, hundreds of frames (float64: 3^-300 is a normal number)
+            return module_tol(chk, rng, tier, V, w, rng.choice([t for t in longs if t > 64]), 1 if quick else rng.choice([1, 2]),
+                              "f64", style=rng.choice(["peaky", "gauss"]))
+        if kind == "advance":
+            return advance_exact(chk, rng, tier, V, w, rng.choice(longs), long_run=True)
+        return module_tol(chk, rng, tier, min(V, 2), min(w, 3), rng.choice([24, 32, 40]), 1, "f64", lm=True, style="peaky")
+
+    def volume():
+        # large input / output tensors with everything else narrow: T*N*(V+1) (logits) beyond 1e5 and T*N*K' (token
+        # buffer) beyond 1e4 / 1e5; one or two (quick) / three elements go through Lean, the rest is judged by the result
+        # (quick: without the array model - the class is about the tensors around the step function)
+        T, N, V, w = rng.choice([(40, 64, 64, 4), (100, 33, 33, 4), (100, 64, 17, 2), (200, 64, 8, 8), (64, 33, 64, 8)])
+        return module_tol(chk, rng, tier, V, w, T, N, "f64" if T > 64 else rng.choice(["f32", "f64"]),
+                          style="peaky", keep_elems=(1 if T > 64 else 2) if quick else 3, model=not quick)
+
+    def batch_wide(N, w, V):
+        # large batches x a beam of moderate width: N*K' beyond 1e3 / 1e4, N*K'*(V+1) (candidates, extension scores,
+        # LM scores) beyond 1e4 / 1e5; ragged lengths
+        return module_tol(chk, rng, tier, V, w, max(3, fill_frames(V, w) + 1), N, "f64", keep_elems=2, style="mixed",
+                          lm=V <= 17 and rng.random() < 0.5)
+
+    BW = [(33, 32, 17), (64, 32, 17), (33, 32, 128), (64, 32, 64), (128, 100, 3)]
+
+    def batch_small(kind):
         N = rng.choice(BATCHES if not quick else BATCHES[1:3])
-        kind = rng.choice(["tol", "exact", "fused", "wide"])
-        for kind in ([kind] if quick else ["tol", "exact", "fused", "wide"]):
-            if kind == "tol":
-                yield module_tol(chk, rng, tier, rng.choice([1, 2, 3]), rng.choice([1, 2, 4, 6, 20]), rng.choice([2, 3, 5]),
-                                 N, rng.choice(["f32", "f64"]), keep_elems=6)
-            elif kind == "exact":
-                yield module_exact(chk, rng, tier, rng.choice([1, 2, 3]), rng.choice([1, 2, 4, 6, 20]), rng.choice([2, 3, 5]),
-                                   N, rng.choice(["f32", "f64"]), keep_elems=6)
-            elif kind == "fused":
-                yield module_tol(chk, rng, tier, 2, rng.choice([1, 2, 4]), rng.choice([2, 3, 4]), N, "f64", lm=True,
-                                 keep_elems=4)
-            else:                   # many elements x a beam of moderate width: N*K'*V beyond 1e4 / 1e5
-                Nw, Vw = rng.choice([(33, 17), (64, 17), (64, 33)] if quick else [(33, 17), (64, 33), (128, 33)])
-                yield module_tol(chk, rng, tier, Vw, 32, 3, Nw, "f64", keep_elems=2, style="mixed")
+        if kind == "tol":
+            return module_tol(chk, rng, tier, rng.choice([1, 2, 3]), rng.choice([1, 2, 4, 6, 20]), rng.choice([2, 3, 5]),
+                              N, rng.choice(["f32", "f64"]), keep_elems=6)
+        if kind == "exact":
+            return module_exact(chk, rng, tier, rng.choice([1, 2, 3]), rng.choice([1, 2, 4, 6, 20]), rng.choice([2, 3, 5]),
+                                N, rng.choice(["f32", "f64"]), keep_elems=6)
+        return module_tol(chk, rng, tier, 2, rng.choice([1, 2, 4]), rng.choice([2, 3, 4]), N, "f64", lm=True, keep_elems=4)
+
+    for _ in range(reps):
+        others = ["exact", "advance", "state"]
+        rng.shuffle(others)
+        kinds4 = ["tol", "fused", "advance", "exact"]
+        # --- wide beams: the (K', K', V) intermediate beyond 1e5 / beyond 65536 (N*K'*V LM scores beyond 1e3)
+        yield wide(100000, 330000, "tol")
+        yield wide(65536, 330000, "fused")
+        yield wide(65536, 330000, others[0])
+        if quick:
+            yield vocab(rng.choice(kinds4), narrow=False)
+            yield long_run("exact")
+            yield volume()
+            yield batch_wide(*rng.choice(BW))
+            yield rng.choice([huge, lambda: long_run("tol64"), lambda: long_run("tol"), lambda: long_run("advance"),
+                              lambda: long_run("fused"), lambda: batch_small(rng.choice(["tol", "exact", "fused"]))])()
+            continue
+        yield wide(65536, 100000, others[1])
+        yield wide(10000, 65536, others[2])
+        yield wide(1000, 10000, others[0])
+        yield wide(100000, 330000, others[1])
+        yield wide(1000, 10000, "fused")
+        for kind in ("advance", "exact", "state"):
+            yield wide(65536, 330000, kind)
+        yield huge()
+        for kind in kinds4:
+            yield vocab(kind, narrow=False)
+            yield vocab(kind, narrow=True)
+        for kind in ("exact", "tol64", "tol", "advance", "fused"):
+            yield long_run(kind)
+        for _i in range(2):
+            yield volume()
+        for x in BW:
+            yield batch_wide(*x)
+        for kind in ("tol", "exact", "fused"):
+            yield batch_small(kind)
